@@ -113,7 +113,7 @@ def mems_msop(rng, l, seq, ts_us=None, temp=None, return_mode=None, noise=False,
         if i in bad_subs:
             subs.append(None)
         else:
-            subs.append(l.mems_sub((seq + i) % 65536, mems_blocks(rng, l), ts_us=ts_us + i * 150, temp=temp, return_mode=return_mode, sub_len=l.T['sizeof_sub']))
+            subs.append(l.mems_sub((seq + i) % 65536, mems_blocks(rng, l), ts_us=ts_us + i * 150, temp=(temp + 3 * i) % 256, return_mode=return_mode, sub_len=l.T['sizeof_sub']))
     return l.jumbo_msop(subs)
 
 
